@@ -638,7 +638,117 @@ def run(ck):
             broker_case(entries, parsed, False, [m], target, sorted({T0 + 1, soon - 1, soon, soon + 1, far + 1}),
                         rng.choice(["announce", "static"]), "random", gks)
 
-    ck.require_monitor("permission-predicate", "signature-check", "broker-permission-predicate")
+    # ------------------------------------------------------------ 5. broker level: re-announcements changing the certificate list
+    def reannounce_case(steps, configured, target, label):
+        """steps: [(list of Cert, dict of other announcement fields, instants)]; one broker, one server announcing repeatedly.
+        After every announcement the permission must follow the LATEST announcement's certificates."""
+        now_box = [steps[0][2][0]]
+        gm.current_datetime_with_zone = lambda: dt_of(now_box[0])
+        chatter = io.StringIO()
+        registry = []
+        connected_cbs = 0
+        outcomes = []
+        try:
+            with contextlib.redirect_stdout(chatter):
+                cfg = config_from_string("/nonexistent-vf", "tub.port", "[client]\nforce_foolscap = true\n", _valid_config())
+                sb = StorageFarmBroker(True, lambda overrides: FakeTub(registry), cfg, StorageClientConfig(
+                    grid_manager_keys=[ed25519.verifying_key_from_string(k.pub_s) for k in configured]))
+                psi = b"\x02" * 16
+                for stepno, (certs, fields, instants) in enumerate(steps):
+                    ann = {"service-name": "storage", "nickname": "srv",
+                           "anonymous-storage-FURL": "pb://62ubehyunnyhzs7r6vdonnm2hpi52w6y@tcp:127.0.0.1:1/swiss"}
+                    ann.update(fields)
+                    if certs is not None:
+                        ann["grid-manager-certificates"] = [entry_of(c) for c in certs]
+                    now_box[0] = instants[0]
+                    sb._got_announcement(target.v0, ann)
+                    if len(registry) > connected_cbs:
+                        connected_cbs = len(registry)
+                        registry[-1](FakeRref())              # a replaced server object gets its connection
+                        while env.evq.pending():
+                            env.evq._turn()
+                    ck.hit("reannounce-step" if stepno else "first-announcement")
+                    for now_us in instants:
+                        now_box[0] = now_us
+                        exp, why = expected(certs or [], configured, target.pub_s, now_us)
+                        srv = [x for x in sb.get_known_servers() if x.get_serverid() == target.v0]
+                        in_upload = target.v0 in [x.get_serverid() for x in sb.get_servers_for_psi(psi, for_upload=True)]
+                        in_all = target.v0 in [x.get_serverid() for x in sb.get_servers_for_psi(psi)]
+                        api = srv[0].upload_permitted() if srv else False
+                        outcomes.append((stepno, exp, in_upload))
+                        if exp is None:
+                            ck.skip("broker:" + why)
+                            continue
+                        ck.mon("reannouncement-permission-predicate")
+                        if not in_all:
+                            ck.observe("reannounced-server-not-connected")
+                            continue
+                        if bool(in_upload) != exp or bool(api) != exp:
+                            prev = [c.kind for c in (steps[stepno - 1][0] or [])] if stepno else None
+                            ck.violation("permission-not-updated-on-reannouncement" if stepno else
+                                         ("broker-permits-without-good-certificate" if in_upload else "broker-denies-despite-good-certificate"),
+                                         "after the server's latest announcement (certificates %s; previous %s) the broker %s it for "
+                                         "uploads; the latest announcement's certificates say %s"
+                                         % ([c.kind for c in (certs or [])], prev, "offers" if in_upload else "refuses",
+                                            "permitted" if exp else "not permitted"),
+                                         {"configured": [k.pub_s for k in configured], "server": target.v0, "step": stepno, "now_us": now_us,
+                                          "history": [{"certs": [c.kind for c in (cs or [])], "fields": f} for cs, f, _ in steps[:stepno + 1]],
+                                          "latest-certificates": [entry_of(c) for c in (certs or [])]})
+                        elif stepno:
+                            ck.hit("reannouncement-permission-" + ("granted" if exp else "withdrawn"))
+        finally:
+            gm.current_datetime_with_zone = real_now
+            for dc in list(env.reactor.getDelayedCalls()):
+                if dc.active():
+                    dc.cancel()
+        ck.case("broker-reannounce", key=(label, repr([(None if cs is None else [(c.cert, c.sig) for c in cs], sorted(f.items()), i)
+                                                         for cs, f, i in steps])),
+                nontrivial=len(steps) > 1, sample={"history": label, "outcomes": outcomes[:8]})
+
+    for rnd in range(2 if ck.tier == "quick" else 8):
+        m = Key(rng, "M0"); target = Key(rng, "S0"); other = Key(rng, "S1")
+        far = T0 + 10 ** 12
+        makers = {
+            "valid": lambda: [mk("valid", m, target.pub_s, far + 2 * rng.randrange(1, 1000))],
+            "none": lambda: [],
+            "absent": lambda: None,                                   # no grid-manager-certificates key at all
+            "other-server": lambda: [mk("other-server", m, other.pub_s, far)],
+            "tampered": lambda: [tamper_sig(mk("valid", m, target.pub_s, far), rng.randrange(64), "tamper-sig")],
+            "foreign-signer": lambda: [mk("unconfigured-signer", Key(rng, "Mx"), target.pub_s, far)],
+            "expired": lambda: [mk("expired", m, target.pub_s, T0 - 2 * rng.randrange(1, 10 ** 6))],
+            "valid+other": lambda: [mk("other-server", m, other.pub_s, far), mk("valid", m, target.pub_s, far)],
+        }
+        other_changes = {
+            "certs-only": lambda i: {},
+            "nickname": lambda i: {"nickname": "srv-renamed-%d" % i},
+            "version": lambda i: {"my-version": "tahoe/%d" % i},
+            "furl": lambda i: {"anonymous-storage-FURL": "pb://62ubehyunnyhzs7r6vdonnm2hpi52w6y@tcp:127.0.0.1:%d/swiss" % (2 + i)},
+            "seed": lambda i: {"permutation-seed-base32": b32(bytes([i + 1]) * 20).decode("ascii")},
+        }
+        names = sorted(makers)
+        for a in names:
+            for b in names:
+                if a == b and a != "valid":
+                    continue
+                for ch in sorted(other_changes):
+                    if ck.out_of_time():
+                        break
+                    if ch != "certs-only" and rng.random() < .5:
+                        continue
+                    steps = [(makers[a](), {}, [T0 + 1]), (makers[b](), other_changes[ch](1), [T0 + 3, T0 + 5])]
+                    if rng.random() < .3:
+                        c = rng.choice(names)
+                        steps.append((makers[c](), other_changes[rng.choice(sorted(other_changes))](2), [T0 + 7]))
+                    ck.hit("reannounce:%s->%s" % (a, b))
+                    ck.hit("reannounce-with:" + ch)
+                    reannounce_case(steps, [m], target, "%s->%s/%s" % (a, b, ch))
+
+    ck.require_monitor("permission-predicate", "signature-check", "broker-permission-predicate",
+                       "reannouncement-permission-predicate")
+    ck.require_reach("reannouncement-permission-granted", "reannouncement-permission-withdrawn",
+                     "reannounce:valid->none", "reannounce:valid->other-server", "reannounce:valid->tampered",
+                     "reannounce:valid->expired", "reannounce:expired->valid", "reannounce:valid->absent",
+                     "reannounce-with:certs-only", "reannounce-with:nickname")
     ck.require_reach("broker-granted", "broker-denied", "broker-denied-with-unparseable-certificate",
                      *["broker-garble:" + g for g in GARBLES])
     ck.require_reach("granted", "denied", "denied-at-expiry-instant", "expired-during-history", "bad-signature-rejected", "real-sign",
@@ -662,3 +772,7 @@ def run(ck):
 #                                                                                        broker-denies-despite-good-certificate
 #   (list in selftest/breaks_c33.py: 11/11 caught; seeded C33-1..4: 4/4 caught)
 #   `expires > now` -> `now > expires: continue` (seeded C33-1: still valid at now == expires)  caught: permits-without-good-certificate
+
+# Round 3: seeded C33-5 (re-announcement with only the certificate list changed keeps the old verifier) and
+#   selftest c33-broker-reannouncement-ignored-when-only-certificates-differ ... caught: permission-not-updated-on-reannouncement
+#   (section 5: two/three-announcement histories, permission judged against the LATEST announcement)
